@@ -615,11 +615,14 @@ Proof.
     + destruct (tuple_items pv).
       * sp_bind (fun (_ : state) (_ : list (lval * lval)) => True); [sp_pre spec_kw; tauto|]. intros k.
         sp_bind (fun (_ : state) (_ : unit) => True).
-        { destruct fv; try (apply spec_ret; auto); destruct sv; try (apply spec_ret; auto);
-            destruct (iter_elems false v) eqn:Ei; try (apply spec_ret; auto).
-          - sp_bind holds; [|intros; apply spec_ret; auto]. apply spec_touch; [|discriminate].
+        { destruct fv as [?| |o|l|idp|? ?|]; try (apply spec_ret; auto).
+          - destruct sv as [v| | | | | |]; try (apply spec_ret; auto). destruct (iter_elems false v) eqn:Ei; try (apply spec_ret; auto).
+            sp_bind holds; [|intros; apply spec_ret; auto]. apply spec_touch; [|discriminate].
             intros s H. apply holds_LO. tauto.
-          - eapply spec_pre with (pre := fun s => holds_all s [LP idp]); [|auto with stab]. apply spec_converse_any. intros; apply spec_unm. }
+          - destruct l; [apply spec_ret; auto|]. destruct sv as [v| | | | | |]; try (apply spec_ret; auto).
+            destruct (iter_elems false v) eqn:Ei; try (apply spec_ret; auto). apply spec_unm.
+          - destruct sv as [v| | | | | |]; try (apply spec_ret; auto). destruct (iter_elems false v) eqn:Ei; try (apply spec_ret; auto).
+            eapply spec_pre with (pre := fun s => holds_all s [LP idp]); [|auto with stab]. apply spec_converse_any. intros; apply spec_unm. }
         intros _. sp_bind holds_all; [sp_pre spec_iter; tauto|]. intros l0. apply spec_ret. intros s H. cbn. tauto.
       * sp_bind holds_all; [sp_pre spec_iter; tauto|]. intros l1.
         sp_bind (fun (_ : state) (_ : list (lval * lval)) => True); [sp_pre spec_kw; tauto|]. intros k. apply spec_ret. intros s H. cbn. tauto.
@@ -940,8 +943,16 @@ Proof.
   destruct (cleanup s) as [s1 r1] eqn:E. cbn. exact (proj1 (spec_cleanup (fun _ => True) _ _ _ I Logic.I E)).
 Qed.
 
+Lemma payload_event_shape x e : In e (tb_events x ++ dump_events S x) -> exists o op, e = EPayload o op /\ In o (carried x).
+Proof.
+  intros He. apply in_app_or in He as [He|He]; destruct x; cbn in He; try contradiction.
+  - apply in_map_iff in He as (o & <- & Ho). eauto.
+  - destruct He as [<-|[]]. eexists _, _. split; [reflexivity|now left].
+  - apply in_map_iff in He as (o & <- & Ho). eauto.
+  - destruct (s_callable S o); [contradiction|]. destruct He as [<-|[]]. eexists _, _. split; [reflexivity|now left].
+Qed.
 Lemma inv_payload x (cs : list (oid * nop)) : forall s, Inv s -> incl (carried x) (auth s) ->
-  Inv (fold_left add_ev (map (fun c => ECtx (fst c) (snd c)) cs ++ payload_events S x) s).
+  Inv (fold_left add_ev (tb_events x ++ map (fun c => ECtx (fst c) (snd c)) cs ++ dump_events S x) s).
 Proof.
   assert (K : forall l s, Inv s -> (forall e, In e l -> (exists o op, e = ECtx o op) \/ exists o op, e = EPayload o op /\ In o (auth s)) -> Inv (fold_left add_ev l s)).
   { induction l as [|e l IHl]; intros s I H; cbn; [exact I|].
@@ -950,12 +961,11 @@ Proof.
     apply IHl; [exact I1|]. intros e' He'. destruct (H e' (or_intror He')) as [Hc|(o' & op' & -> & Ho')]; [now left|right].
     exists o', op'. split; [reflexivity|]. apply (auth_add s e); [|exact Ho'].
     destruct (H e (or_introl eq_refl)) as [(o & op & ->)|(o & op & -> & _)]; discriminate. }
-  intros s I H. apply K; [exact I|]. intros e He. apply in_app_or in He as [He|He].
+  intros s I H. apply K; [exact I|]. intros e He.
+  apply in_app_or in He as [He|He]; [|apply in_app_or in He as [He|He]].
+  - right. destruct (payload_event_shape x e (in_or_app _ _ _ (or_introl He))) as (o & op & -> & Ho). eauto.
   - left. apply in_map_iff in He as (c & <- & _). eauto.
-  - right. destruct x; cbn in He; try contradiction.
-    + apply in_app_or in He as [He|He]; apply in_map_iff in He as (o & <- & Ho); eexists _, _; (split; [reflexivity|apply H; exact Ho]).
-    + destruct He as [<-|He]; [eexists _, _; split; [reflexivity|apply H; now left]|]. destruct (s_callable S o); [contradiction|].
-      destruct He as [<-|[]]. eexists _, _; split; [reflexivity|apply H; now left].
+  - right. destruct (payload_event_shape x e (in_or_app _ _ _ (or_intror He))) as (o & op & -> & Ho). eauto.
 Qed.
 Lemma inv_dispatch_request seq raw s s' o : Inv s -> dispatch_request S C HT DT UL BL seq raw s = (s', o) -> Inv s'.
 Proof.
@@ -1361,7 +1371,7 @@ Proof.
     destruct r2; injection E as <- <-; eapply qrel_trans; eauto.
   - destruct (closed s1); [now injection E as <- <-|].
     destruct (propagates C x); injection E as <- <-; [eapply qrel_trans; [exact Q1|apply qrel_end_conn]|].
-    eapply qrel_trans; [exact Q1|]. exact (q_fold_any (fun e => e) (map (fun c => ECtx (fst c) (snd c)) (rev (ctxs s1)) ++ payload_events S x) s1).
+    eapply qrel_trans; [exact Q1|]. exact (q_fold_any (fun e => e) (tb_events x ++ map (fun c => ECtx (fst c) (snd c)) (ctxs s1) ++ dump_events S x) s1).
   - now injection E as <- <-.
 Qed.
 
@@ -1910,12 +1920,12 @@ Proof.
 Qed.
 Lemma arel_end_conn (s : hst W) : arel names s (end_conn s).
 Proof. unfold end_conn. destruct (closed s); [apply arel_refl|]. destruct (cleanup s) as [s1 r1] eqn:E. exact (a_cleanup names _ _ _ E). Qed.
-Lemma payload_listed x cs : Forall (listed names) (rev (map (fun c : oid * nop => ECtx (fst c) (snd c)) cs ++ payload_events S x)).
+Lemma payload_listed x (cs : list (oid * nop)) e : In e (tb_events x ++ map (fun c => ECtx (fst c) (snd c)) cs ++ dump_events S x) -> listed names e.
 Proof.
-  apply Forall_rev, Forall_app. split; [apply Forall_forall; intros e He; apply in_map_iff in He as (c & <- & _); exact Logic.I|].
-  apply Forall_forall. intros e He. destruct x; cbn in He; try contradiction.
-  - apply in_app_or in He as [He|He]; apply in_map_iff in He as (o & <- & _); exact Logic.I.
-  - destruct He as [<-|He]; [exact Logic.I|]. destruct (s_callable S o); [contradiction|]. destruct He as [<-|[]]. exact Logic.I.
+  intros He. apply in_app_or in He as [He|He]; [|apply in_app_or in He as [He|He]].
+  - destruct (payload_event_shape S x e (in_or_app _ _ _ (or_introl He))) as (o & op & -> & _). exact Logic.I.
+  - apply in_map_iff in He as (c & <- & _). exact Logic.I.
+  - destruct (payload_event_shape S x e (in_or_app _ _ _ (or_intror He))) as (o & op & -> & _). exact Logic.I.
 Qed.
 Lemma arel_fold_events l : (forall e, In e l -> listed names e) -> forall s : hst W, arel names s (fold_left add_ev l s).
 Proof.
@@ -1944,7 +1954,7 @@ Proof.
   - destruct (closed s1); [now injection E as <- <-|].
     destruct (propagates C x); injection E as <- <-; [eapply arel_trans; [exact Q1|apply arel_end_conn]|].
     eapply arel_trans; [exact Q1|]. apply arel_fold_events. intros e He.
-    pose proof (payload_listed x (rev (ctxs s1))) as F. rewrite Forall_forall in F. apply F. now apply -> in_rev.
+    exact (payload_listed x (ctxs s1) e He).
   - now injection E as <- <-.
 Qed.
 End GuardMsg.
